@@ -1,0 +1,83 @@
+// Copyright © 2022-2026 Obol Labs Inc. Licensed under the terms of a Business Source License 1.1
+
+//go:build verif
+
+// Verification contracts (comments only; read by /verif/govc, never compiled into charon).
+package bcast
+
+//@ pure server.hashFunc server.signFunc server.verifyFunc messageIDFuncs.checkMessage hashFunc client.verifyFunc client.hashFunc
+//@ pure pb.BCastSigRequest.GetId pb.BCastSigRequest.GetMessage pb.BCastMessage.GetId pb.BCastMessage.GetMessage pb.BCastMessage.GetSignatures
+//@ pure anypb.Any.UnmarshalNew anypb.Any.GetTypeUrl anypb.Any.GetValue anypb.New p2p.PeerIDToKey k1util.Verify65 k1util.Sign
+
+//@ func (s *server) dedupHash
+//@ props C13
+//@ atomic
+//@ assigns s.dedup
+//@ ensures result == nil ==> !has(old(s.dedup), dedupKey{PeerID: pID, MsgID: msgID}) || bytes.Equal(old(s.dedup)[dedupKey{PeerID: pID, MsgID: msgID}], hash)
+//@ ensures result == nil ==> has(s.dedup, dedupKey{PeerID: pID, MsgID: msgID}) && s.dedup[dedupKey{PeerID: pID, MsgID: msgID}] == hash
+//@ ensures result != nil ==> s.dedup == old(s.dedup)
+//@ ensures all(k2, dedupKey, k2 != dedupKey{PeerID: pID, MsgID: msgID} ==> s.dedup[k2] == old(s.dedup)[k2] && (has(s.dedup, k2) <==> has(old(s.dedup), k2)))
+//@ canary result != nil
+
+//@ func (s *server) getMessageIDFunc
+//@ props C13
+//@ assigns nothing
+//@ ensures r1 <==> has(s.msgIDFuncs, msgID)
+//@ ensures r1 ==> r0 == s.msgIDFuncs[msgID]
+
+//@ func (s *server) handleSigRequest
+//@ props C13
+//@ callreq s.signFunc: a1 == req.GetId() && a2 == reqMessageHash
+//@ callreq s.signFunc: res(1, s.hashFunc(req.GetId(), req.GetMessage())) == nil && a2 == res(0, s.hashFunc(req.GetId(), req.GetMessage()))
+//@ callreq s.signFunc: found && fn.checkMessage(ctx, pID, req.GetMessage()) == nil
+//@ callreq s.signFunc: has(s.dedup, dedupKey{PeerID: pID, MsgID: req.GetId()}) && s.dedup[dedupKey{PeerID: pID, MsgID: req.GetId()}] == reqMessageHash
+//@ ensures r2 == nil ==> r1 && ncalls(s.signFunc) == 1
+//@ ensures ncalls(s.signFunc) <= 1
+//@ canary r2 != nil
+
+//@ func (s *server) handleMessage
+//@ props C13
+//@ callreq fn.callback: s.verifyFunc(msg.GetId(), msg.GetMessage(), msg.GetSignatures()) == nil
+//@ callreq fn.callback: a2 == pID && a3 == msg.GetId() && res(1, msg.GetMessage().UnmarshalNew()) == nil && a4 == res(0, msg.GetMessage().UnmarshalNew())
+//@ ensures r2 == nil ==> ncalls(fn.callback) == 1
+//@ canary r2 != nil
+
+//@ func (c *Component) msgIDAllowed
+//@ props C13
+//@ pure
+//@ ensures result <==> has(c.allowedMsgIDs, msgID)
+
+//@ func newHashAny$1
+//@ props C13
+//@ callreq binary.Write: a3 == uint64(len(field)) && a1 == h
+//@ callreq h.Write: a1 == field
+//@ callreq h.Write: ($i == 0 ==> a1 == sessionHash) && ($i == 1 ==> a1 == []byte(msgID)) && ($i == 2 ==> a1 == []byte(anyPB.GetTypeUrl())) && ($i == 3 ==> a1 == anyPB.GetValue())
+//@ ensures r1 == nil ==> ncalls(binary.Write) == 4 && ncalls(h.Write) == 4
+//@ loop 1 invariant ncalls(binary.Write) == $i && ncalls(h.Write) == $i
+
+//@ func (c *Component) newK1Signer$1
+//@ props C13
+//@ ensures r1 == nil ==> c.msgIDAllowed(msgID)
+//@ ensures r1 == nil ==> res(1, k1util.Sign(c.secret, hash)) == nil && r0 == res(0, k1util.Sign(c.secret, hash))
+
+//@ func (c *Component) newPeerK1Verifier$1
+//@ props C13
+//@ ensures result == nil ==> len(sigs) == len(c.peers) && c.msgIDAllowed(msgID) && res(1, hashFunc(msgID, anyPB)) == nil
+//@ ensures result == nil ==> forall(i, 0, len(sigs), len(sigs[i]) == 65 && res(1, p2p.PeerIDToKey(c.peers[i])) == nil &&
+//@+   res(1, k1util.Verify65(res(0, p2p.PeerIDToKey(c.peers[i])), res(0, hashFunc(msgID, anyPB)), sigs[i])) == nil &&
+//@+   res(0, k1util.Verify65(res(0, p2p.PeerIDToKey(c.peers[i])), res(0, hashFunc(msgID, anyPB)), sigs[i])))
+//@ canary result != nil
+//@ loop 1 invariant forall(k, 0, $i, len(sigs[k]) == 65 && res(1, p2p.PeerIDToKey(c.peers[k])) == nil &&
+//@+   res(1, k1util.Verify65(res(0, p2p.PeerIDToKey(c.peers[k])), hash, sigs[k])) == nil &&
+//@+   res(0, k1util.Verify65(res(0, p2p.PeerIDToKey(c.peers[k])), hash, sigs[k])))
+
+//@ func (c *client) Broadcast
+//@ props C13
+//@ callreq c.sendFunc: c.verifyFunc(msgID, anyMsg, sigs) == nil
+//@ callreq c.sendFunc: a3 == protocolIDMsg && a5 == bcastMsg && bcastMsg.Id == msgID && bcastMsg.Message == anyMsg && bcastMsg.Signatures == sigs
+//@ callreq c.sendFunc: res(1, anypb.New(msg)) == nil && anyMsg == res(0, anypb.New(msg))
+//@ callreq c.signFunc: a1 == msgID && a2 == hash && res(1, c.hashFunc(msgID, anyMsg)) == nil && hash == res(0, c.hashFunc(msgID, anyMsg))
+//@ loop 1 invariant len(sigs) == len(c.peers) && ncalls(c.sendFunc) == 0
+//@ loop 2 invariant len(sigs) == len(c.peers) && ncalls(c.sendFunc) == 0
+//@ loop 3 invariant len(sigs) == len(c.peers) && ncalls(c.sendFunc) == 0
+//@ loop 4 invariant true
